@@ -156,6 +156,14 @@ type faultSpec struct {
 	Path string `json:"path,omitempty"` // errpath: every operation on a path with this suffix fails
 	// Lock-directory faults are addressed by name: "Mkdir" (acquire fails).
 	LockOp string `json:"lock_op,omitempty"`
+	N      int    `json:"n,omitempty"` // short / crashshort: number of bytes that still arrive (0 = half of the write)
+}
+
+func (f *faultSpec) shortN(n int) int {
+	if f.N > 0 && f.N < n {
+		return f.N
+	}
+	return n / 2
 }
 
 type client struct {
@@ -249,7 +257,7 @@ func (c *client) hook(op *shim.Op) error {
 		return errInjected
 	case "short":
 		if op.Name == "f.Write" {
-			return &shim.ShortWriteError{N: op.N / 2}
+			return &shim.ShortWriteError{N: f.shortN(op.N)}
 		}
 		return errInjected
 	case "crash":
@@ -258,7 +266,7 @@ func (c *client) hook(op *shim.Op) error {
 	case "crashshort":
 		c.crashed.Store(true)
 		if op.Name == "f.Write" {
-			return &shim.ShortWriteError{N: op.N / 2}
+			return &shim.ShortWriteError{N: f.shortN(op.N)}
 		}
 		return c.dead(op)
 	}
